@@ -68,6 +68,11 @@ pub fn gen_data(kind: u64, seed: u64, n: usize) -> Vec<u8> {
                 .collect();
             (0..n).map(|i| chunk[i % 1024]).collect()
         }
+        4 => {
+            // sparse: random head and tail, zeros in between
+            let r = gen_data(0, seed, n);
+            (0..n).map(|i| if i < 700 || i + 300 >= n { r[i] } else { 0 }).collect()
+        }
         _ => (0..n).map(|i| ((i / 1024) % 256) as u8).collect(),
     }
 }
